@@ -136,7 +136,7 @@ func (sp *Spec) hostSpecByName(name string) *HostSpec {
 func genSteady(sp *Spec, r *rng, index int, dur int64) *Spec {
 	ha := sp.haNames()
 	c := &sp.Cfg
-	cond := []string{"healthy", "master_invisible_manager_switchover", "zk_lost_all", "maintenance", "failing_switchover", "dead_replica", "deregistered_host", "master_dead_no_failover", "replica_isolated"}[(index/4)%9]
+	cond := []string{"healthy", "master_invisible_manager_switchover", "zk_lost_all", "maintenance", "failing_switchover", "dead_replica", "deregistered_host", "master_dead_no_failover", "replica_isolated", "switchover_cannot_freeze_master", "lost_master_cannot_be_fenced"}[(index/4)%11]
 	c.TickMs, c.HealthMs, c.RecoveryMs = 1000, 1000, 1000
 	switch cond {
 	case "master_invisible_manager_switchover":
@@ -158,6 +158,28 @@ func genSteady(sp *Spec, r *rng, index int, dur int64) *Spec {
 		for _, h := range ha[1:] {
 			sp.StmtFail = append(sp.StmtFail, StmtFail{Host: h, Prefix: "STOP ", Errno: 1105, FromMs: 0, ToMs: dur})
 		}
+	case "switchover_cannot_freeze_master":
+		// every attempt goes through the whole read-only procedure on the old master (graceful
+		// attempts, session killer, forced attempt) and fails
+		c.SwitchoverTimeoutMs = 3600000
+		c.SwitchoverMaxAttempts = 100000
+		c.DBSetRoTimeoutMs, c.DBSetRoForceTimeoutMs = 3000, 5000
+		for at := int64(8000); at < dur-40000; at += 35000 {
+			sp.Timeline = append(sp.Timeline, TLEvent{AtMs: at, Kind: "cli_switch_from", Host: ha[1], Arg: ha[0]})
+		}
+		sp.StmtFail = append(sp.StmtFail, StmtFail{Host: ha[0], Prefix: "SET GLOBAL super_read_only", Errno: 1205, FromMs: 0, ToMs: dur})
+	case "lost_master_cannot_be_fenced":
+		// ZooKeeper gone for everybody, replicas stopped: the master's daemon tries to fence it in
+		// every Lost iteration and fails the same way
+		c.DBSetRoTimeoutMs, c.DBSetRoForceTimeoutMs = 3000, 5000
+		c.InactivationDelayMs = 3000
+		c.DisableSetROOnLost = false
+		c.SemiSync = false
+		for _, h := range ha[1:] {
+			sp.Timeline = append(sp.Timeline, TLEvent{AtMs: 9000, Kind: "sql", Host: h, Arg: "STOP SLAVE FOR CHANNEL ''"})
+		}
+		sp.Timeline = append(sp.Timeline, TLEvent{AtMs: 10000, Kind: "zk_down", Fault: true})
+		sp.StmtFail = append(sp.StmtFail, StmtFail{Host: ha[0], Prefix: "SET GLOBAL super_read_only", Errno: 1205, FromMs: 0, ToMs: dur})
 	case "dead_replica":
 		sp.Timeline = append(sp.Timeline, TLEvent{AtMs: 8000, Kind: "kill_mysql", Host: ha[len(ha)-1], Fault: true})
 	case "deregistered_host":
